@@ -201,7 +201,7 @@ def c02(tier, seed):
 
 
 def c10(tier, seed):
-    return _verus_prop("C10", tier, seed, [("layout", r"::(blob|Layout::known_type_for_size|Layout::for_size_internal|Layout::for_size|integer_type|bitfield_unit|Layout::new|align_to|comp_tail_layout)::", None), ("opaque", None, None), ("vouch", None, None), ("impl_debug", r"::array_arm::", None), ("lattice_constrain", r"::HasVtableAnalysis::", None), ("prim_types", r"::(BindgenContext::is_stdint_type|type_from_named)::", None),
+    return _verus_prop("C10", tier, seed, [("layout", r"::(blob|Layout::known_type_for_size|Layout::for_size_internal|Layout::for_size|integer_type|bitfield_unit|Layout::new|align_to|comp_tail_layout)::", None), ("opaque", None, None), ("vouch", None, None), ("impl_debug", r"::(array_arm|instantiation_arm)::", None), ("lattice_constrain", r"::HasVtableAnalysis::", None), ("prim_types", r"::(BindgenContext::is_stdint_type|type_from_named)::", None),
                                            ("constrain", r"::CannotDerive::constrain_type::", None), ("blocklist", None, None), ("repr", None, None)], {
         "trusted_base": LAYOUT_TRUST,
         "functions_under_contract": ["bindgen/codegen/helpers.rs: blob, integer_type, bitfield_unit", "bindgen/ir/layout.rs: Layout::{known_type_for_size, new, for_size_internal, for_size}",
